@@ -208,7 +208,7 @@ impl Check for C11 {
         "One run = one valid LEF text (runs 0..11: the repository's macro.lef and the LEF snippets embedded in lef21's tests; others: G-lef renderings, 1 in 3 with non-ASCII comments/names) and, on it: EVERY prefix (cut at every byte; cuts inside a multi-byte character are delivered as raw bytes), EVERY single-token fault for every token of a harness tokenisation (deleted, duplicated, swapped with its neighbour, replaced by END/MACRO/LAYER/PIN/;/a number/an unterminated string/non-ASCII words, non-ASCII appended/prepended/inserted into names, string literals and comments, a non-ASCII comment line placed before the token; quick tier on texts > 1500 bytes: a seeded 1/4 sample of tokens), plus seeded multi-fault and random-text cases; three scale runs read 64 KiB, 256 KiB and 1 MiB texts (valid, cut, unterminated string, one very long name/number/comment, non-ASCII first line) and 15 texts that repeat one construct 20 000 times inside one enclosing object (PROPERTY statements in a macro / a pin, pins, ports, rectangles, layers, polygon points, antenna attributes, sites, vias, property definitions, extension tokens, density rectangles, symmetries), so that super-linear behaviour trips the watchdog; one case in sixteen is read from a file that shrinks while being read (end-of-file before the size reported by seek). Each case is stored in SimFs and read by the real LefLibrary::open; one case in eight is delivered in 1..7-byte pieces with EINTR, so multi-byte characters are split across read() calls. evaluations counts cases; non-trivial = damaged text differs from the valid one; distinct = distinct damaged-text digests.".into()
     }
     fn assumptions(&self) -> Vec<String> {
-        vec!["the parser performs no I/O after read_to_string, so termination is bounded by CPU time of the reading thread (100 x (50 ms + 1 us/byte)) and the supervisor watchdog (10 s of child CPU time without progress), not by a step counter".into(), "stack overflow / abort are contained by the child process".into(), "exhaustive over the listed fault kinds for the texts explored only".into()]
+        vec!["the parser performs no I/O after read_to_string, so termination is bounded by CPU time of the reading thread (100 x (50 ms + 1 us/byte)) and the supervisor watchdog (10 s of child CPU time without progress), not by a step counter".into(), "stack overflow / abort are contained by the child process; workers run under an 8 GiB address-space limit, so an absurd reservation fails and aborts instead of succeeding lazily".into(), "exhaustive over the listed fault kinds for the texts explored only".into()]
     }
     fn real_vs_stub(&self) -> Value {
         json!({"real": ["lef21 lexer, parser, error reporting, writer"], "stub": ["file system (SimFs) delivering the damaged text"], "harness_tokeniser": ["whitespace/string/comment splitter used to address tokens"]})
